@@ -9,7 +9,8 @@
 
    Modelled, statement for statement: insert_double_array (the three "create transition" branches, including the
    unreachable `next_state == 0` one), find_free_base (= max(state/4, 1)), relocate_state (child collection over
-   0..=255, the 'search loop with its 10000-attempt limit, MAX_BASE test and +257 stride, the two move loops),
+   0..=255, the 'search loop with its +257 stride, its fall-back behind the arrays after 10000 colliding probes and
+   its MAX_BASE test, the two move loops),
    update_grandchildren_check_values, contains_double_array, impl FiniteStateAutomaton::{is_final, transition},
    keys_double_array_actual / keys_with_prefix_double_array_actual / collect_keys_double_array_recursive,
    impl Trie::insert (num_keys from the pre-insert contains; `?` returns before the count on Err),
@@ -54,7 +55,7 @@ Definition VALUE_MASK : N := 2147483647.     (* 0x7FFF_FFFF *)
 Definition MAX_STATE : N := 2147483646.      (* 0x7FFF_FFFE *)
 Definition NIL_STATE : N := 2147483647.      (* 0x7FFF_FFFF *)
 Definition U32_MAX : N := 4294967295.
-Definition MAX_BASE : N := U32_MAX - 256.
+Definition MAX_BASE : N := 2147483390.       (* 0x7FFF_FFFE - 256: a base is a 31-bit value (after the fix of relocate_state) *)
 Definition FREE_WORD : N := N.lor NIL_STATE FREE_BIT.   (* NIL_STATE | FREE_BIT *)
 Definition MAX_ATTEMPTS : N := 10000.
 
@@ -116,14 +117,17 @@ Definition reloc_children (d : da) (state old_base : N) : list child_t :=
       else []
     else []) byte_range.
 
-(* the 'search loop; attempts is the counter of the code, fuel only makes the recursion structural
-   (MAX_ATTEMPTS + 2 iterations reach the explicit error return) *)
+(* the 'search loop; attempts is the counter of the code, fuel only makes the recursion structural (the iteration
+   with attempts = MAX_ATTEMPTS + 1 always returns, see ProofsDaReloc2.search_err).  As repaired by the fix: commit
+   "relocate_state falls back to the end of the arrays": after MAX_ATTEMPTS colliding probes the base is moved behind
+   the arrays (it used to be `attempts > 10000 || new_base > MAX_BASE => Err` with MAX_BASE = u32::MAX - 256) *)
 Fixpoint reloc_search (fuel : nat) (d : da) (children : list child_t) (new_symbol new_base attempts : N)
   : da * option N :=
   match fuel with
   | O => (d, None)
   | S f =>
-      if (MAX_ATTEMPTS <? attempts) || (MAX_BASE <? new_base) then (d, None)     (* Err("Cannot relocate state") *)
+      let new_base := if MAX_ATTEMPTS <? attempts then N.max new_base (blen d) else new_base in   (* new_base.max(base.len()) *)
+      if MAX_BASE <? new_base then (d, None)                                     (* Err("Cannot relocate state") *)
       else
         let new_pos := sat_add new_base new_symbol in
         let max_pos := fold_right N.max new_pos (map (fun c => sat_add new_base (c_sym c)) children) in
@@ -320,7 +324,7 @@ Fixpoint d_exec (st : dst) (ops : list (N * list N)) : dst :=
   | [] => st
   | op :: t => d_exec (fst (d_step st op)) t
   end.
-(* no insert of the history returned Err (relocation gave up after 10001 attempts) *)
+(* no insert of the history returned Err (a relocation would have needed a base beyond MAX_BASE) *)
 Fixpoint d_noerr (st : dst) (ops : list (N * list N)) : bool :=
   match ops with
   | [] => true
